@@ -69,6 +69,25 @@ def fixed_cases():
                 for prog in ([("read", 1024)] * 5, [("read", 1)] * 4 + [("read", None)], [("readline", None)] * 3, [("read", size)] + [("read", 7)] * 2,
                              [("iter", None)] if False else [("read", 100), ("readline", 50), ("read", None)]):
                     out.append((d, stream, [list(prog), []], True))
+    # the lines INSIDE a chunked body against their bound (limit_request_fields * (limit_request_field_size + 2) + 4 for one
+    # chunk-size line with its extensions, and for the trailer block): lengths on both sides of it - accepted or refused, the
+    # verdict is a function of the bytes
+    for (nf, fs) in ((2, 30), (3, 26)):
+        sp = lp.make_spec(limit_request_fields=nf, limit_request_field_size=fs)
+        bound = nf * (fs + 2) + 4
+        head = b"POST /c HTTP/1.1\r\nTransfer-Encoding: chunked\r\n\r\n"
+        tail = b"GET /n HTTP/1.1\r\nHost: x\r\n\r\n"
+        for total in (bound - 3, bound - 2, bound - 1, bound, bound + 1, bound + 2, bound + 9, bound + 40, 3 * bound):
+            line = b"5;pad=" + b"x" * (total - 2 - 6)                 # len(line + CRLF) == total
+            out.append((sp, head + line + b"\r\nhello\r\n0\r\n\r\n" + tail, [[("read", None)], []], True))
+            out.append((sp, head + b"3\r\nabc\r\n" + line + b"\r\nhello\r\n0\r\n\r\n" + tail, [[("read", 2), ("read", None)], []], True))
+            last = b"0;pad=" + b"x" * (total - 2 - 6)
+            out.append((sp, head + b"5\r\nhello\r\n" + last + b"\r\n\r\n" + tail, [[("read", None)], []], True))
+            trl = b"X-T: " + b"t" * max(1, min(fs - 5, total - 9))
+            blk = trl + b"\r\n"
+            while len(blk) + 2 < total:
+                blk += b"Y: " + b"u" * max(0, min(fs - 3, total - len(blk) - 2 - 5)) + b"\r\n"
+            out.append((sp, head + b"5\r\nhello\r\n0\r\n" + blk + b"\r\n" + tail, [[("read", None)], []], True))
     return out
 
 
